@@ -1,5 +1,7 @@
 package client
 
+import "golang.org/x/sync/singleflight"
+
 // VerifInflight reports, for the pool of addr, the number of entries in the in-flight tables
 // (batchCommandsClient.batched) and the sum of the `sent` counters of its batch clients.
 func VerifInflight(c *RPCClient, addr string) (entries int, sent int64) {
@@ -15,3 +17,7 @@ func VerifInflight(c *RPCClient, addr string) (entries int, sent int64) {
 	}
 	return
 }
+
+// VerifCollapseReset empties the process-wide flight table of the request-collapse layer (resolveRegionSf), so
+// that an execution of the C18 harness (part C) never sees a flight of an earlier execution in the same process.
+func VerifCollapseReset() { resolveRegionSf = singleflight.Group{} }
